@@ -387,6 +387,106 @@ fn run_sql_batch(ty: &str, vals: &[DataValue]) -> String {
 }
 
 // ---------------------------------------------------------------------------------------------
+// storage sort order: a keyed table on the disk engine, filled by several INSERTs
+// ---------------------------------------------------------------------------------------------
+
+fn open_disk_db(dir: &str) -> (tokio::runtime::Runtime, risinglight::Database) {
+    use rlverif::risinglight::storage::SecondaryStorageOptions;
+    let rt = runtime();
+    let mut o = SecondaryStorageOptions::default_for_cli();
+    o.path = std::path::PathBuf::from(dir);
+    o.target_block_size = 64; // several blocks per column
+    let db = rt.block_on(risinglight::Database::verif_new_on_disk_nobg(o)).unwrap();
+    (rt, db)
+}
+
+fn disk_phase(rt: &tokio::runtime::Runtime, db: &risinglight::Database) -> String {
+    let q = |sql: &str| run_sql(rt, db, sql);
+    format!(
+        "ord={}|scan={}|gk={}|gu={}|jk={}|ju={}",
+        ids(&q("select id from k order by k"), 1),
+        ids(&q("select id from k"), 1),
+        ids(&q("select min(id), max(id), count(*) from k group by k"), 3),
+        ids(&q("select min(id), max(id), count(*) from u group by k"), 3),
+        ids(&q("select a.id, b.id from k a join u b on a.k = b.k"), 2),
+        ids(&q("select a.id, b.id from u a join u b on a.k = b.k"), 2),
+    )
+}
+
+/// `disk T v1 … vn`: `k(k T primary key, id int)` and the unkeyed twin `u(k T, id int)` on the
+/// secondary storage; the rows go in as `3 + n % 3` separate transactions (row i in group
+/// `i % groups`, so the key ranges of the row-sets interleave); observed fresh, after one pass of
+/// the real compactor, and after closing and reopening the database.
+fn run_disk_batch(ty: &str, vals: &[DataValue]) -> String {
+    let base = std::env::var("VERIF_C19_WORK").unwrap_or("/verif/.work".into());
+    let dir = format!("{base}/c19-disk-{}", std::process::id());
+    let _ = std::fs::remove_dir_all(&dir);
+    let (rt, db) = open_disk_db(&dir);
+    let t = sql_type(ty, vals);
+    for sql in [format!("create table k(k {t} primary key, id int)"), format!("create table u(k {t}, id int)")] {
+        if let Outcome::Err(e) | Outcome::Panic(e) = run_sql(&rt, &db, &sql) {
+            let _ = std::fs::remove_dir_all(&dir);
+            return format!("create-failed:{}", hex(e.as_bytes()));
+        }
+    }
+    let groups = 3 + vals.len() % 3;
+    let loaded = catch(|| {
+        rt.block_on(async {
+            let StorageImpl::SecondaryStorage(s) = db.verif_storage() else { panic!("storage") };
+            for g in 0..groups {
+                for name in ["k", "u"] {
+                    let id = db.verif_catalog().get_table_id_by_name("postgres", name).unwrap();
+                    let table = s.get_table(id).unwrap();
+                    let types: Vec<DataType> = table.columns().unwrap().iter().map(|c| c.data_type()).collect();
+                    let mut b = DataChunkBuilder::new(&types, vals.len() + 1);
+                    let mut any = false;
+                    for (i, v) in vals.iter().enumerate() {
+                        if i % groups == g {
+                            let _ = b.push_row([v.clone(), DataValue::Int32(i as i32)]);
+                            any = true;
+                        }
+                    }
+                    if any {
+                        let mut txn = table.write().await.unwrap();
+                        txn.append(b.take().unwrap()).await.unwrap();
+                        txn.commit().await.unwrap();
+                    }
+                }
+            }
+        })
+    });
+    if let Err(e) = loaded {
+        let _ = std::fs::remove_dir_all(&dir);
+        return format!("load-failed:{}", hex(e.as_bytes()));
+    }
+    let fresh = disk_phase(&rt, &db);
+    let compact = catch(|| {
+        rt.block_on(async {
+            let StorageImpl::SecondaryStorage(s) = db.verif_storage() else { panic!("storage") };
+            s.verif_compact_once().await.map_err(|e| e.to_string())
+        })
+    });
+    let compacted = match compact {
+        Ok(Ok(())) => disk_phase(&rt, &db),
+        Ok(Err(_)) => "compact-err".into(),
+        Err(_) => "compact-panic".into(),
+    };
+    drop(db);
+    drop(rt);
+    let reopened = match catch(|| open_disk_db(&dir)) {
+        Ok((rt, db)) => {
+            let r = disk_phase(&rt, &db);
+            drop(db);
+            drop(rt);
+            r
+        }
+        Err(_) => "reopen-panic".into(),
+    };
+    let _ = std::fs::remove_dir_all(&dir);
+    format!("groups:{groups};fresh:{fresh};compacted:{compacted};reopened:{reopened}")
+}
+
+// ---------------------------------------------------------------------------------------------
 // generators
 // ---------------------------------------------------------------------------------------------
 
@@ -756,6 +856,7 @@ fn gen_requests(tier: &str, out: &str) {
     let mut r = Rng::from_env();
     let thorough = tier == "thorough";
     let (n_cmp, n_disp, n_parse, n_sql) = if thorough { (1_000_000, 300_000, 300_000, 2000) } else { (9000, 5000, 5000, 117) };
+    let n_disk = if thorough { 440 } else { 33 };
     let mut s = String::new();
     for i in 0..n_cmp {
         let ty = TYPES[i % TYPES.len()];
@@ -812,6 +913,45 @@ fn gen_requests(tier: &str, out: &str) {
     // different representation, extremes), before the random batches
     for (ty, vals) in boundary_batches() {
         s += &format!("sql {} {}\n", ty, vals.iter().map(enc).collect::<Vec<_>>().join(" "));
+    }
+    // storage sort order: keyed disk tables filled by 3..5 INSERTs (boundary values first)
+    let disk_types: Vec<&str> = TYPES.iter().copied().filter(|t| *t != "tstz" && *t != "vec").collect();
+    let disk_ok = |v: &DataValue| -> Option<DataValue> {
+        match v {
+            DataValue::Null => None,
+            // the disk encoding of INTERVAL keeps months and days only (C06 finding): keys with ms = 0
+            DataValue::Interval(_) => {
+                let c = canon_value(v);
+                let p: Vec<i32> = c[3..].split(':').map(|x| x.parse().unwrap()).collect();
+                Some(DataValue::Interval(mk_interval(p[0], p[1], 0)))
+            }
+            other => Some(other.clone()),
+        }
+    };
+    for (ty, vals) in boundary_batches() {
+        if disk_types.contains(&ty) {
+            let vs: Vec<DataValue> = vals.iter().filter_map(disk_ok).collect();
+            if vs.len() >= 5 {
+                s += &format!("disk {} {}\n", ty, vs.iter().map(enc).collect::<Vec<_>>().join(" "));
+            }
+        }
+    }
+    for i in 0..n_disk {
+        let ty = disk_types[i % disk_types.len()];
+        let n = 9 + r.below(10) as usize;
+        let mut vals: Vec<DataValue> = vec![];
+        while vals.len() < n {
+            let v = if !vals.is_empty() && r.chance(1, 2) {
+                let prev = r.pick(&vals).clone();
+                related(&mut r, ty, &prev)
+            } else {
+                gen_val(&mut r, ty)
+            };
+            if let Some(v) = disk_ok(&v) {
+                vals.push(v);
+            }
+        }
+        s += &format!("disk {} {}\n", ty, vals.iter().map(enc).collect::<Vec<_>>().join(" "));
     }
     for i in 0..n_sql {
         let sql_types: Vec<&str> = TYPES.iter().copied().filter(|t| *t != "tstz").collect();
@@ -876,6 +1016,10 @@ fn answer(line: &str) -> String {
         "sql" => {
             let vals: Vec<DataValue> = t[2..].iter().map(|x| dec(x)).collect();
             run_sql_batch(t[1], &vals)
+        }
+        "disk" => {
+            let vals: Vec<DataValue> = t[2..].iter().map(|x| dec(x)).collect();
+            run_disk_batch(t[1], &vals)
         }
         _ => "bad-request".into(),
     }
